@@ -12,7 +12,7 @@ Mirrors the code as written:
 * `if ring and …` / `if visited_lru and …` test `__len__` (both containers start empty, so the
   guards are false for ever — theorem `C12_perf_ring_visited_inert`); modelled with that truthiness;
 * the seeding loop's `local_t1_frontier_evicted = ev` *assignment* (last seed wins) is kept;
-* `cfg_t1["decay"]` raising `KeyError` when the key is absent is `stop = 2`;
+* an absent / falsy `t1.decay` means defaults (`cfg_t1.get("decay", {}) or {}`); `stop = 2` is unreachable;
 * besides deltas and counters the model returns an event log (pops, expansions, skips,
   relaxations with all operands, pushes) — the monotone history the theorems speak about.
 -/
@@ -129,15 +129,17 @@ def effFrontier {α : Type} (c : Cfg α) : Option Int :=
 /-- Python `max(a, b)` (returns `a` unless `b > a`). -/
 def pymax {α : Type} [Num α] (a b : α) : α := if lt a b then b else a
 
-/-- `_compute_decay`; `none` = `KeyError: 'decay'`. -/
+/-- `decay_cfg = cfg_t1.get("decay", {}) or {}`: an absent or falsy `t1.decay` means "all defaults". -/
+def decayCfgOf {α : Type} (c : Cfg α) : DecayCfg α := c.decay.getD ⟨false, none, none, none⟩
+
+/-- `_compute_decay` (exp_floor `max(rate**d, floor)` with defaults 0.6 / 0.05; attn_quad
+`1/(1+alpha*d*d)` with default 0.8).  Total since the repair of the missing-`decay` KeyError; the
+`Option` is kept so that the relaxation code path `none ⇒ stop = 2` stays expressible (never taken). -/
 def decayOf {α : Type} [Num α] (c : Cfg α) (d : Nat) : Option α :=
-  match c.decay with
-  | none => none
-  | some dc =>
-    if dc.attnQuad then
-      some (div one (add one (mul (dc.alpha.getD (ofDec 8 1)) (ofNat (d * d)))))
-    else
-      some (pymax (powNat (dc.rate.getD (ofDec 6 1)) d) (dc.floor.getD (ofDec 5 2)))
+  if (decayCfgOf c).attnQuad then
+    some (div one (add one (mul ((decayCfgOf c).alpha.getD (ofDec 8 1)) (ofNat (d * d)))))
+  else
+    some (pymax (powNat ((decayCfgOf c).rate.getD (ofDec 6 1)) d) ((decayCfgOf c).floor.getD (ofDec 5 2)))
 
 def multOf {α : Type} [Num α] (c : Cfg α) (rel : Nat) : α :=
   (c.edgeMult.lookup rel).getD (ofDec 6 1)
